@@ -213,7 +213,11 @@ class Multiprocessor(Filter[Iterable[Any], Iterable[Any]]):
             n_procs_lock       = mt.Lock()
 
             load_line   = SourceSink(IterableSource(items), self._load_stopper, pickler, in_put)
-            filter_line = SourceSink(in_get, setter, unpickler, get_max, Safe(Foreach(self._filter)), out_put)
+            #Like the items the outputs are pickled explicitly. Handed to the queue as they are it'd be the queue's background thread
+            #that pickles them, and that thread only prints an error and drops the output. It also means that an output
+            #can't be taken for the poison pill (None) and that one that can't be rebuilt here raises here instead of
+            #looking like the end of the queue.
+            filter_line = SourceSink(in_get, setter, unpickler, get_max, Safe(Foreach(self._filter)), pickler, out_put)
 
             def loader_finished_or_failed(worker: Union[ThreadLine,ProcessLine]):
                 if worker.exception: self._exceptions.append(worker.exception)
@@ -266,7 +270,7 @@ class Multiprocessor(Filter[Iterable[Any], Iterable[Any]]):
                         if read_waiters and isinstance(i, UniqueKey):
                             read_waiters[i].set()
                         else:
-                            yield i
+                            yield from unpickler.filter([i])
 
             finally:
 
